@@ -980,6 +980,26 @@ inline void build_pool(TermPool &P, const PoolCfg &cfg, const std::string &tag)
     }
 }
 
+// CPU seconds used so far by this process and its reaped children (wall time is useless on a shared box)
+inline double cpu_s()
+{
+    struct rusage a, b;
+    getrusage(RUSAGE_SELF, &a);
+    getrusage(RUSAGE_CHILDREN, &b);
+    auto f = [](const struct rusage &r) { return r.ru_utime.tv_sec + r.ru_stime.tv_sec + 1e-6 * (r.ru_utime.tv_usec + r.ru_stime.tv_usec); };
+    return f(a) + f(b);
+}
+inline void phase_log(const char *pid, const std::string &what)
+{
+    static double last_cpu = 0, last_t = 0;
+    double c = cpu_s(), t = now();
+    if (last_t == 0)
+        last_t = opts().t0;
+    fprintf(stderr, "[%s] %-40s wall %6.1fs  cpu %7.1fs (= %.1fs on 16 idle cores)\n", pid, what.c_str(), t - last_t, c - last_cpu, (c - last_cpu) / 16);
+    last_cpu = c;
+    last_t = t;
+}
+
 inline bool depends_on_symbols(const Basic &e)
 {
     if (is_a_sub<Symbol>(e))
